@@ -23,6 +23,10 @@
  * library functions (wait with timeout 0; an idle blocking wait ends the loop)
  * and log every internal step as its own record ("sub" events).
  *
+ * Built with DRV_POLL (epoll_create1 renamed to a function of this driver that fails, the sources of mptio/notify
+ * compiled in) the notifier runs its portable
+ * poll() path, the one taken where epoll is missing or cannot be created; mpt_loop is not driven there.
+ *
  * Judgement free: the driver copies bytes, follows pointers, maps pointers to
  * tokens and return codes to classes.
  */
@@ -52,9 +56,16 @@
 #undef mpt_loop
 extern int mpt_notify_wait(MPT_STRUCT(notify) *, int, int);
 extern MPT_INTERFACE(input) *mpt_notify_next(const MPT_STRUCT(notify) *);
+#ifndef DRV_POLL
 extern int hk_notify_wait(MPT_STRUCT(notify) *, int, int);
 extern MPT_INTERFACE(input) *hk_notify_next(const MPT_STRUCT(notify) *);
 extern int drv_mpt_loop(MPT_STRUCT(notify) *);
+#endif
+
+#ifdef DRV_POLL
+/* stands in for epoll_create1: no epoll descriptor to be had */
+extern int drv_epoll_create1(int flags) { (void) flags; errno = ENOSYS; return -1; }
+#endif
 
 #define MAXIN   96
 #define MAXMSG  64
@@ -84,6 +95,9 @@ static struct slot {
 	int released;
 	MPT_STRUCT(stream) *ps;        /* peer writer (COBS kinds) */
 	char path[64];
+	/* bytes the peer put on the wire: end offset of every message (measured, not computed) */
+	long wire_total, wire_end[MAXMSG * 8];
+	int nwire;
 } tab[MAXIN + 1];
 static int nin;
 static MPT_INTERFACE(input) *cur;
@@ -386,6 +400,17 @@ static void emit_tail(const char *ret, int dint, int dret)
 		j_item_int(n);
 	}
 	j_arr_close();
+	/* messages the input has read completely so far: those that end within the bytes it took off its descriptor */
+	j_arr_open("got");
+	for (i = 1; i <= nin; i++) {
+		int n = 0, k, g = 0;
+		if (tab[i].kind && tab[i].kind != 'h' && tab[i].kind != 'l' && tab[i].kind != 'o' && !tab[i].released
+		    && tab[i].fd >= 0 && ioctl(tab[i].fd, FIONREAD, &n) >= 0) {
+			for (k = 0; k < tab[i].nwire; k++) if (tab[i].wire_end[k] <= tab[i].wire_total - n) g++;
+		}
+		j_item_int(g);
+	}
+	j_arr_close();
 	j_arr_open("data");
 	for (i = 0; i < ndatas; i++) {
 		size_t k;
@@ -490,6 +515,7 @@ static void remember_waiting(void)
 	last_nwaiting = cur_nwaiting;
 	memcpy(last_waiting, cur_waiting, sizeof(int) * (size_t) cur_nwaiting);
 }
+#ifndef DRV_POLL
 extern int hk_notify_wait(MPT_STRUCT(notify) *n, int what, int timeout)
 {
 	int r, t;
@@ -512,6 +538,7 @@ extern MPT_INTERFACE(input) *hk_notify_next(const MPT_STRUCT(notify) *n)
 	remember_waiting();
 	return cur;
 }
+#endif
 
 /* ---------- peers ---------- */
 static MPT_STRUCT(stream) *peer_stream(int fd)
@@ -642,6 +669,7 @@ static int do_add(struct cmd *c, int kind, int t)
 
 static int send_msg(struct slot *s, const uint8_t *d, size_t n)
 {
+	int before = 0, after = 0;
 	if (s->peer < 0 || s->released) return -1;     /* nobody reads any more: the peer's write would fail */
 	if (s->kind == 'h') {
 		uint8_t frame[MAXLEN + 1];
@@ -651,6 +679,7 @@ static int send_msg(struct slot *s, const uint8_t *d, size_t n)
 		return send(s->peer, frame, n + 1, MSG_NOSIGNAL) == (ssize_t) (n + 1) ? 0 : -2;
 	}
 	if (!s->ps) return -3;
+	if (s->fd >= 0) ioctl(s->fd, FIONREAD, &before);
 	if (s->idlen) {
 		static const uint8_t zero[8] = { 0 };
 		if (mpt_stream_push(s->ps, (size_t) s->idlen, zero) < 0) return -4;
@@ -658,6 +687,10 @@ static int send_msg(struct slot *s, const uint8_t *d, size_t n)
 	if (n && mpt_stream_push(s->ps, n, d) < 0) return -5;
 	if (mpt_stream_push(s->ps, 0, 0) < 0) return -6;
 	if (mpt_stream_flush(s->ps) < 0) { s->ps = 0; s->peer = -1; return -7; }   /* writer broken: not used again */
+	if (s->fd >= 0 && ioctl(s->fd, FIONREAD, &after) >= 0 && s->nwire < MAXMSG * 8) {
+		s->wire_total += after - before;
+		s->wire_end[s->nwire++] = s->wire_total;
+	}
 	return 0;
 }
 
@@ -826,6 +859,7 @@ static void drv_step(struct cmd *c)
 		disp = 0; real_cmd = 0; real_arg = 0; cur = 0;
 		answer(c, "ok", 0, 0, 0);
 	}
+#ifndef DRV_POLL
 	else if (!strcmp(a, "loop")) {
 		int r, t;
 		set_rvs(c);
@@ -839,6 +873,7 @@ static void drv_step(struct cmd *c)
 		(void) t;
 		answer(c, "ok", 0, 0, r);
 	}
+#endif
 	else {
 		drv_begin(c); j_str("ret", "unknown-action"); drv_dbg(); drv_end();
 	}
